@@ -4,10 +4,15 @@
    processes that ran nothing but this case: as the first render of a process, again on the same
    engine, on a second engine, then - after a history of renders of other templates and of the
    same template with other data, on any engine of the process - on a third engine, with freshly
-   built equal data, on an engine created only then; and as the only render of several more
-   processes.  The property's oracle looks only at Go's own observations: all outputs
-   byte-identical and the caller's data deep-equal (reflect.DeepEqual in the harness) to a
-   pristine copy.  Where a model covers the template the outputs are also compared with its
+   built equal data, on an engine created only then, on an engine whose template directory holds
+   the template alone, on an engine whose directory lists the template and its sibling templates
+   in the other order; as the only render of several more processes (over each of these
+   directory layouts); and the renders whose result reader the harness kept unread while the
+   process went on rendering, read when all renders were over.  [c_pairs] holds the other renders
+   that were kept unread: what was read in the end, and the output of the same render repeated
+   and read at once.  The property's oracle looks only at Go's own observations: all outputs of
+   the pair byte-identical, the two outputs of every other kept render byte-identical, and the
+   caller's data deep-equal (reflect.DeepEqual in the harness) to a pristine copy.  Where a model covers the template the outputs are also compared with its
    prediction: Models/Purity.v for the order-sensitive shapes, the executor model
    Pug.Compile + Tmpl.Exec (a function of the template and the data alone: the heap starts with
    the converted data and an empty $global, every literal allocates a new cell) for templates
@@ -21,6 +26,7 @@ Record case07 := {
   c_tmpl      : option (list pnode);   (* the template as a pug tree, where the generator has one *)
   c_data      : gdata;                 (* the caller's data as built by the harness *)
   c_outs      : list (option bytes);   (* Some out | None = execution error, one per observed render *)
+  c_pairs     : list (option bytes * option bytes);   (* other renders: read late / read at once *)
   c_untouched : bool;                  (* harness: data deep-equals the pristine copy after all renders *)
 }.
 
@@ -29,7 +35,8 @@ Definition all_same (l : list (option bytes)) : bool :=
 
 (* the property itself on Go's observations, independent of the model *)
 Definition oracle07 (c : case07) : bool :=
-  all_same (c_outs c) && c_untouched c && Nat.leb 2 (length (c_outs c)).
+  all_same (c_outs c) && forallb (fun p => opt_beqb (fst p) (snd p)) (c_pairs c)
+  && c_untouched c && Nat.leb 2 (length (c_outs c)).
 
 (* numbers the text model covers: Number.String() is plain decimal below 10^10 *)
 Fixpoint data_small (d : gdata) : bool :=
